@@ -15,8 +15,12 @@ pub fn units(tier: &str, _seed: u64) -> Vec<String> {
         let nl = s.split(';').count();
         let rewrites: Vec<String> = {
             let mut r = vec!["deco".to_string(), "id0".to_string(), "renum".to_string(), "rev".to_string(), "ord:rev".to_string(), "ord:hash:1".to_string()];
-            for j in 0..nl.min(2) {
-                r.push(format!("split:{}", j));
+            // every line is split once (shapes with auxiliaries: an AUX line split in two must not matter either)
+            for j in 0..nl {
+                // quick tier: the first two lines and every auxiliary line; all lines in the thorough tier
+                if tier == "thorough" || j < 2 || s.split(';').nth(j).map(|x| x.ends_with("/X")).unwrap_or(false) {
+                    r.push(format!("split:{}", j));
+                }
             }
             for j in 0..(nl - 1) {
                 r.push(format!("swap:{}", j));
@@ -27,7 +31,7 @@ pub fn units(tier: &str, _seed: u64) -> Vec<String> {
             // rewritings that re-associate a three-term float sum (whole-building totals over carriers, averaged
             // export factors over sources) need a tolerance proof that no back end delivers (DESIGN.md 2.4):
             // they are explored in the thorough tier, where they are reported INCONCLUSIVE unless violated
-            let hard = (s.contains("1/X") && (r == "rev" || r == "swap:5" || r == "split:1")) || (s.contains("EL_COGEN") && (r == "rev" || r == "ord:rev" || r == "swap:1"));
+            let hard = (s.contains("1/X") && (r == "rev" || r == "swap:5" || r == "split:1" || r == "split:0" || r == "split:3" || r == "split:4")) || (s.contains("EL_COGEN") && (r == "rev" || r == "ord:rev" || r == "swap:1"));
             if hard && tier != "thorough" {
                 continue;
             }
@@ -160,9 +164,13 @@ pub fn scenario(u: &Unit) -> String {
             rec_ep("rw", &b);
             let (la, lb) = (leaves(&a), leaves(&b));
             let names = |l: &Vec<(String, F)>| -> Vec<String> { l.iter().map(|x| x.0.clone()).collect() };
-            if names(&la) != names(&lb) {
-                ob("same-structure", f());
-                return "ok".into();
+            // map entries that exist only when a value is non-zero (grid delivery by carrier, ...) may appear in one
+            // layout and not in the other when the value is rounding noise: a missing leaf counts as zero
+            let mut all: Vec<String> = names(&la);
+            for nm in names(&lb) {
+                if !all.contains(&nm) {
+                    all.push(nm);
+                }
             }
             // magnitude of the inputs (tolerance of re-associated sums)
             let mut mag = k(0.0);
@@ -171,9 +179,11 @@ pub fn scenario(u: &Unit) -> String {
                     mag = mag + line_value(l, t).abs_();
                 }
             }
-            for ((nm, x), (_, y)) in la.iter().zip(lb.iter()) {
+            for nm in &all {
+                let x = la.iter().find(|v| &v.0 == nm).map(|v| v.1).unwrap_or(k(0.0));
+                let y = lb.iter().find(|v| &v.0 == nm).map(|v| v.1).unwrap_or(k(0.0));
                 // identical terms on the unchanged tree; the statement itself is the tolerant one
-                ob_via(&format!("same{}", nm), "same-term", x.ident(*y), x.approx(*y, 64.0, mag + x.abs_()));
+                ob_via(&format!("same{}", nm), "same-term", x.ident(y), x.approx(y, 64.0, mag + x.abs_()));
             }
             "ok".into()
         }
